@@ -55,6 +55,7 @@ func c14RPC(w *env.World, d *env.Direct, kind, outcome, tag string) {
 			}
 		case strings.HasPrefix(outcome, "cancel"):
 			w.Unaries[tag] = func(r *env.Rec, hctx context.Context, in string) (string, error) {
+				r.HCtx = hctx
 				cancel() // the caller gives up while the handler runs; the handler finishes by itself
 				return "late", nil
 			}
